@@ -249,5 +249,19 @@ CLAIMS["C18"] = {
     "technique": "dominance / path analysis of name resolution + write and unguarded-read inventory on the shared tables",
     "ref": "DESIGN.md section 5 C18",
 }
+CLAIMS["C08"] = {
+    "text": "Decides the structural sources of non-determinism, for all inputs: every iteration, comprehension and conversion "
+            "(list/tuple/join/pop/next/min/max) whose operand mypy types as set or frozenset is found by type, not by name, and "
+            "each is shown order-insensitive by construction (adds to sets, constant returns) or followed by a sort before any "
+            "use; every sort key identifies the elements it orders (no hash-order ties); the eight JSON lists are sorted by id; "
+            "no ambient read (time, random, cwd, environment, id/hash used for more than equality) occurs in pipeline code; "
+            "source and output paths are only used resolved; file-system enumerations are sorted or feed an order-independent "
+            "use (for get_api's glob this rests on a recorded, unproved assumption); plus the shared state-reset and write-mode "
+            "clauses for repeated runs. Three hash-seed dependences found this way were reproduced and repaired. It does not "
+            "compare two runs: equality of outputs and determinism of mypy/griffe are not decided.",
+    "note": TRUST + "Loop iterables are typed by mypy run as a library on the repository (its own dependency); 100% of loop iterables resolved.",
+    "technique": "typed determinism lint: set-typed iteration sites (mypy types) + sort-barrier / order-insensitivity classification",
+    "ref": "DESIGN.md section 5 C08",
+}
 
 NOT_APPLICABLE = {}
